@@ -51,6 +51,10 @@ func runC01(c *an.Ctx) {
 	r017(c)
 	r055(c, "R01.8") // masked writes clear every unset masked field (shared with R05.5)
 	r054as(c, "R01.9")
+	// which fields a write may touch is part of what Set/Update do to the stored value: the request's field updater
+	// restricts writes exactly when the resource restricts them (shared with R05.3)
+	r053as(c, "R01.10")
+	c.Min("R01.10", 3)
 	c.Min("R01.8", 2)
 	c.Min("R01.1", 10)
 	c.Min("R01.2", 8)
